@@ -182,6 +182,21 @@ theorem Good_mk_none {root : Val} {par : PRef} {found : Str} {v : Val} {nf : Opt
     Good P root { parent := par, nameIdx := Option.none, value := v, found := found, notFound := nf } :=
   { par := hpar, found := hf, ni := fun _ h => (by cases h), linked := fun _ h => (by cases h) }
 
+/-- the found text `'..'` continues with (fix C06-b puts the index of an index result back) is safe -/
+theorem Good.upFound [SafePred P] {root : Val} {r : Res} (h : Good P root r) : P (upFound r) := by
+  unfold XPath.upFound
+  split
+  · rename_i ni hni
+    split
+    · exact h.found
+    · split
+      · rename_i cn s hsp
+        split
+        · exact P_found_idx h.found (splitNameIndex_ok (P := P) (h.ni ni hni) hsp).2
+        · exact h.found
+      · exact h.found
+  · exact h.found
+
 theorem findD_step [SafePred P] (root : Val) (hroot : SafeKeys P root) (fuel : Nat)
     (ihD : IHD P root fuel) (ihK : IHK P root fuel) (ihI : IHI P root fuel) : IHD P root (fuel + 1) := by
   intro sp entry toks par rl found hpar htoks hfound
@@ -279,14 +294,14 @@ theorem findD_step [SafePred P] (root : Val) (hroot : SafeKeys P root) (fuel : N
                     split
                     · split
                       · split
-                        · refine ihD _ _ _ _ _ _ hnxt ?_ hg.found
+                        · refine ihD _ _ _ _ _ _ hnxt ?_ hg.upFound
                           intro t ht
                           simp only [List.mem_cons] at ht
                           rcases ht with rfl | ht
                           · exact P_bracket hidx
                           · exact hrest t ht
                         · exact Post_err rfl
-                      · exact ihD _ _ _ _ _ _ hnxt hrest hg.found
+                      · exact ihD _ _ _ _ _ _ hnxt hrest hg.upFound
                     · split
                       · rename_i ni nv hni hnv
                         split
